@@ -2,6 +2,12 @@
 import gen
 
 PROPS = {
+    "C16": dict(
+        files=[("op", "c16_op.rs")],
+        generators=[gen.gen_c16],
+        bounds="substr: strings of 0..4 chars of symbolic UTF-8 width, start/length every i64; cat: <= 2 operands of 9 shapes",
+        out="float operands of cat (R6); strings longer than 4 chars; cat of 3+ operands (associativity follows from the fold, not re-proved)",
+    ),
     "C06": dict(
         files=[("op", "c06_op.rs")],
         bounds="every scalar payload; strings <= 2 symbolic chars; containers [], [0], [[]], {}, {a:false}; users with literal operands",
